@@ -4,22 +4,31 @@ import numpy as np
 from .common import Acc, result, search_result
 
 ID = "C04"
-LEAN_MODULES = ["MjwVerif.Props.C04", "MjwVerif.Props.C04Witness"]
+LEAN_MODULES = ["MjwVerif.Props.C04"]
 GEN_FUNCS = ["collision_core.contact_params", "collision_core.contact_material_params", "collision_core.contact_margin_gap", "collision_core.write_contact",
-             "collision_primitive_core.plane_sphere", "collision_primitive_core.sphere_sphere", "collision_primitive_core.sphere_capsule", "math.safe_div"]
+             "collision_primitive_core.plane_sphere", "collision_primitive_core.sphere_sphere", "math.safe_div_F_F"]
 LEVEL_TEXT = ("Theorems about functions regenerated from collision_core.py / collision_primitive_core.py on every run, against a hand transcription of MuJoCo C's rules (Spec/ContactParams.lean: "
-              "mj_contactParam mixing, friction unpacking and mjMINMU clamp, geom margin/gap sums, explicit-pair override; mjraw_SphereSphere / mjc_PlaneSphere / mjc_SphereCapsule formulas): "
-              "contact_params equals the MuJoCo rule for explicit pairs, for equal priorities, and for different priorities whenever both solref are in standard (positive) form; the mix weight "
-              "lies in [0,1]; the parameters are symmetric under swapping the geoms; friction has the (f0,f0,f1,f2,f2) layout clamped at 1e-5; write_contact stores exactly the given values "
-              "(includemargin = margin, dim = condim or 1 for in-gap adhesion) at the allocated slot iff dist < margin + gap; sphere-sphere / plane-sphere / sphere-capsule equal MuJoCo's "
-              "formulas away from coincident centres. The real mjw.collision is compared with mujoco.mj_collision contact-by-contact on random scenes.")
+              "mj_contactParam mixing, friction unpacking and mjMINMU clamp, geom margin/gap sums, explicit-pair override; mjraw_SphereSphere / mjc_PlaneSphere formulas): contact_params equals "
+              "the MuJoCo rule for EVERY input (explicit pairs; equal priorities with all four solmix cases and standard/direct solref; different priorities); the mix weight lies in [0,1]; the "
+              "parameters are symmetric under swapping the geoms; friction has the (f0,f0,f1,f2,f2) layout clamped at 1e-5; write_contact stores exactly the given values (includemargin = "
+              "margin, dim = condim or 1 for in-gap adhesion) at the allocated slot iff dist < margin + gap; sphere-sphere / plane-sphere equal MuJoCo's formulas away from coincident centres. "
+              "The generated contact_params is additionally evaluated at Float32 next to the real @wp.func. The real mjw.collision is compared with mujoco.mj_collision contact-by-contact on "
+              "random scenes, after regression cases of the two defects this check found and that were repaired.")
 LEVEL_NOTE = ("C04_partial: box/capsule/cylinder multi-contact primitives and all GJK/EPA (convex, mesh, heightfield) pairs are covered only by the sampled comparison with mujoco.mj_collision; "
-              "MuJoCo C is represented by a hand transcription. FALSE part (C04Witness, genuine defect): with different geom priorities and a direct-form (non-positive) solref the code takes the "
-              "element-wise min where MuJoCo copies the higher-priority geom's solref. Trusted: Lean kernel + Mathlib, tier-A translator, float round-off not modelled.")
-ASSUMPTIONS = ["tolerances: primitives 2e-5 abs + 1e-4 rel (float32); GJK/EPA pairs 2e-3 on dist/pos and 2e-2 on the normal (ccd_tolerance 1e-6, float32 EPA)",
-               "multi-contact pairs are matched by nearest position; a differing contact COUNT of a multi-contact (box/mesh/capsule-box/cylinder) pair is skipped and counted (tolerance ties of the "
-               "face clipping), never for single-contact analytic pairs",
-               "explicit <pair> elements carry no margin/gap attribute (known finding C18-pair-margin); no self / duplicate pairs (known findings C19)"]
+              "MuJoCo C is represented by a hand transcription. Found by this check and repaired in /repo: 'fix: contact solref ignored geom priority when a solref is in direct (negative) form' "
+              "(99794be; the agreement theorem now holds unconditionally, the witness file is gone) and 'fix: capsule-capsule and box-box dropped contacts whose distance lies inside the gap' "
+              "(49180a6); both are regression cases that run first. STILL PRESENT (functions not translated, oracle findings, recorded as known findings): capsule_capsule's parallel-axes test "
+              "`abs(det) >= 1e-15` is round-off noise in float32 (parallel capsules get 1 or 0 contacts instead of 2); plane_convex ignores the margin (no contact unless the mesh penetrates) and "
+              "keeps only vertices within 1e-3 of the deepest. Trusted: Lean kernel + Mathlib, tier-A translator, float round-off not modelled.")
+ASSUMPTIONS = ["tolerances: analytic single-contact pairs 2e-5 + 1e-4*size on dist, 5e-5 + 2e-4*size on pos, 2e-3 on the normal (float32); analytic multi-contact pairs 2.5x that; GJK/EPA pairs "
+               "2e-3*size + 1e-4 on dist, 2e-2*size on pos, 5e-2 on the normal",
+               "skipped and counted (hits 'skip:*'): dist within tolerance of margin+gap (threshold tie); differing contact COUNT of multi-contact pairs when both sides report contacts (clipping "
+               "ties; mjw documents <= 1 contact for CCD pairs without multicontact support while MuJoCo >= 3.4 enables multiccd by default) - their deepest contact is still compared for "
+               "analytic pairs; GJK/EPA pairs with penetration > 25% of the smaller geom, with margin+gap > 0 (mj_collision itself deviates from mj_geomDistance by millimetres there), or where "
+               "mj_collision reports the DEEPER penetration (EPA returns an upper bound: the shallower answer is the more accurate one); heightfield geometry; non-unique witness points of "
+               "flat contacts; capsules parallel within 1e-3 but not 1e-6",
+               "explicit <pair> elements carry no margin/gap attribute (known finding C18-pair-margin); no self / duplicate pairs (known findings C19); box/mesh geoms get a margin only with "
+               "the CCD flags under which put_model accepts it"]
 
 PRIM_TYPES = ["sphere", "capsule", "ellipsoid", "cylinder", "box"]
 # pairs whose narrow phase is a closed-form single-contact routine in both implementations
@@ -298,9 +307,29 @@ def _pair_kind(t1, t2):
   return key, "ccd"
 
 
+class _Capped:
+  """forwards to an Acc but keeps at most `cap` findings per trigger id (the solref defect fires in every third scene)"""
+
+  def __init__(self, acc, cap=4):
+    self.acc, self.cap = acc, cap
+    self.n = getattr(acc, "_c04_counts", None)
+    if self.n is None:
+      self.n = acc._c04_counts = {}
+
+  def hit(self, k):
+    self.acc.hit(k)
+
+  def find(self, what, site, trigger_id, **kw):
+    self.n[trigger_id] = self.n.get(trigger_id, 0) + 1
+    self.acc.hit("finding:" + trigger_id)
+    if self.n[trigger_id] <= self.cap:
+      self.acc.find(what, site, trigger_id, **kw)
+
+
 def compare(mjm, ref, got, acc, replay):
   """ref/got: dict pair -> contact list. Adds findings to acc. Returns number of compared contacts."""
   import mujoco
+  acc = _Capped(acc)
   ncmp = 0
   multiccd = not (int(mjm.opt.disableflags) & int(mujoco.mjtDisableBit.mjDSBL_MULTICCD))
   nativeccd = not (int(mjm.opt.disableflags) & int(mujoco.mjtDisableBit.mjDSBL_NATIVECCD))
@@ -323,7 +352,7 @@ def compare(mjm, ref, got, acc, replay):
     for c_r, c_g in zip(r[:1], g[:1]):
       for fld, tol in (("friction", 1e-5), ("solref", 1e-4), ("solimp", 1e-5), ("solreffriction", 1e-5)):
         if not np.allclose(c_r[fld], c_g[fld], rtol=1e-5, atol=tol * max(1.0, float(np.abs(c_r[fld]).max()))):
-          trig = "solref-priority" if fld == "solref" and int(mjm.geom_priority[pair[0]]) != int(mjm.geom_priority[pair[1]]) else "param-" + fld
+          trig = "param-" + fld
           acc.find(f"{t1}-{t2} pair {pair}: contact {fld} {np.round(c_g[fld], 6).tolist()} differs from mj_collision {np.round(c_r[fld], 6).tolist()}", "collision_core.contact_material_params", trig,
                    **replay, pair=list(pair))
       if c_r["dim"] != c_g["dim"]:
@@ -339,10 +368,6 @@ def compare(mjm, ref, got, acc, replay):
       if (not r or not g) and all(abs(c["dist"] - thr) < 5 * tol_d for c in r + g):
         acc.hit("skip:threshold-tie")     # dist within tolerance of margin+gap: either side is right
         continue
-      if not g and key in (("capsule", "capsule"), ("box", "box")) and kind != "ccd" and all(c["dist"] >= c["includemargin"] - tol_d for c in r):
-        acc.find(f"{t1}-{t2} pair {pair}: contact(s) in the gap band margin <= dist < margin+gap (dist {[round(c['dist'], 5) for c in r]}, margin {some['includemargin']:.4g}, margin+gap {thr:.4g}) "
-                 "reported by mj_collision are missing", f"collision_primitive_core.{key[0]}_{key[1]}", "in-gap-dropped", **replay, pair=list(pair))
-        continue
       if key == ("plane", "mesh") and not g and all(c["dist"] > 0 for c in r) and any(c["dist"] < thr - 5 * tol_d for c in r):
         acc.find(f"plane-mesh pair {pair}: mesh within margin of the plane but not penetrating (dist {[round(c['dist'], 5) for c in r]}, margin {some['includemargin']:.4g}): mj_collision reports "
                  f"{len(r)} contact(s), mjw.collision none", "collision_primitive.plane_convex", "plane-mesh-margin-dropped", **replay, pair=list(pair))
@@ -353,10 +378,17 @@ def compare(mjm, ref, got, acc, replay):
           acc.find(f"plane-mesh pair {pair}: mj_collision reports {len(r)} penetrating vertices (dist {[round(c['dist'], 5) for c in r]}), mjw.collision only the {len(g)} within 1e-3 of the deepest",
                    "collision_primitive.plane_convex", "plane-mesh-vertex-threshold", **replay, pair=list(pair))
           continue
-      if key == ("capsule", "capsule") and r and g:
+      if key == ("capsule", "capsule"):
         ax1, ax2 = mjm_axes(mjm, replay, pair)
-        if float(np.linalg.norm(np.cross(ax1, ax2))) < 1e-3:
-          acc.hit("skip:parallel-capsules-tie")    # |det| >= mjMINVAL decides 1 vs 2 contacts: float32/float64 tie for parallel axes
+        cr = float(np.linalg.norm(np.cross(ax1, ax2)))
+        if cr < 1e-6 and len(r) == 2:
+          # exactly parallel axes: MuJoCo takes its parallel branch (2 contacts); in float32 `abs(det) >= MJ_MINVAL` (1e-15) is true for round-off noise, the non-parallel branch
+          # divides by the noise and returns 0 or 1 contact
+          acc.find(f"capsule-capsule pair {pair} with parallel axes: mj_collision reports 2 contacts (dist {[round(c['dist'], 5) for c in r]}), mjw.collision {len(g)} "
+                   f"(dist {[round(c['dist'], 5) for c in g]})", "collision_primitive_core.capsule_capsule", "parallel-capsules-float32", **replay, pair=list(pair))
+          continue
+        if cr < 1e-3:
+          acc.hit("skip:near-parallel-capsules-tie")
           continue
       if kind != "analytic" and r and g:
         # multi-contact pairs: the number of clipped / multiccd points is not stable under round-off; mjw documents <= 1 contact for CCD pairs without multicontact support
@@ -405,6 +437,14 @@ def compare(mjm, ref, got, acc, replay):
           # flat/edge contact: the witness point of a face-face or edge-face contact is not unique
           acc.hit(f"skip:nonunique-witness:{key[0]}-{key[1]}")
           continue
+        if kind == "ccd" and c_r["dist"] < 0 and c_g["dist"] < 0:
+          # penetrating convex pair: independent arbiter = overlap along each reported normal (support functions). The true
+          # penetration direction minimises it; if mjw's normal is not worse than mj_collision's (legacy MPR/EPA answers are
+          # upper bounds), the reference cannot convict mjw
+          og, orf = _overlap_along(mjm, replay, pair, c_g["n"]), _overlap_along(mjm, replay, pair, c_r["n"])
+          if og is not None and orf is not None and og <= orf + tol_d:
+            acc.hit(f"skip:ccd-normal-not-worse-than-reference:{key[0]}-{key[1]}")
+            continue
         acc.find(f"{t1}-{t2} pair {pair}: " + "; ".join(bad), site, "geometry-" + kind, **replay, pair=list(pair))
   return ncmp
 
@@ -415,6 +455,46 @@ def mjm_axes(mjm, replay, pair):
   d.qpos[:] = replay["qpos"]
   mujoco.mj_kinematics(mjm, d)
   return d.geom_xmat[pair[0]].reshape(3, 3)[:, 2].copy(), d.geom_xmat[pair[1]].reshape(3, 3)[:, 2].copy()
+
+
+def _support(mjm, mjd, g, dirw):
+  """support function h_g(dirw) = max over the geom of x . dirw (world frame), for convex geom types"""
+  import mujoco
+  R = mjd.geom_xmat[g].reshape(3, 3)
+  c = mjd.geom_xpos[g]
+  dl = R.T @ dirw
+  t = int(mjm.geom_type[g])
+  sz = mjm.geom_size[g]
+  T = mujoco.mjtGeom
+  if t == T.mjGEOM_SPHERE:
+    loc = sz[0] * np.linalg.norm(dl)
+  elif t == T.mjGEOM_CAPSULE:
+    loc = sz[0] * np.linalg.norm(dl) + sz[1] * abs(dl[2])
+  elif t == T.mjGEOM_CYLINDER:
+    loc = sz[0] * np.hypot(dl[0], dl[1]) + sz[1] * abs(dl[2])
+  elif t == T.mjGEOM_BOX:
+    loc = float(np.abs(dl) @ sz)
+  elif t == T.mjGEOM_ELLIPSOID:
+    loc = float(np.linalg.norm(sz * dl))
+  elif t == T.mjGEOM_MESH:
+    m = int(mjm.geom_dataid[g])
+    v = mjm.mesh_vert[mjm.mesh_vertadr[m]: mjm.mesh_vertadr[m] + mjm.mesh_vertnum[m]]
+    loc = float((v @ dl).max())
+  else:
+    return None
+  return float(c @ dirw) + loc
+
+
+def _overlap_along(mjm, replay, pair, n):
+  """overlap of the two convex geoms along unit direction n (from geom1 to geom2): h_1(n) + h_2(-n); the penetration depth is its
+  minimum over n, so of two candidate normals the one with the smaller overlap is the better answer"""
+  import mujoco
+  d = mujoco.MjData(mjm)
+  d.qpos[:] = replay["qpos"]
+  mujoco.mj_kinematics(mjm, d)
+  a, b = _support(mjm, d, pair[0], n), _support(mjm, d, pair[1], -n)
+  return None if a is None or b is None else a + b
+
 
 
 def thr_of(mjm, pair, c):
@@ -429,11 +509,59 @@ def _pairid(mjm, pair):
   return -1
 
 
+_REG_CUBE = "-.1 -.1 -.1  .1 -.1 -.1  -.1 .1 -.1  .1 .1 -.1  -.1 -.1 .1  .1 -.1 .1  -.1 .1 .1  .1 .1 .1"
+REGRESSIONS = [
+  # repaired by /repo 99794be: different priorities, direct-form solref on both / on the lower-priority geom only / on the higher-priority geom only
+  ("solref-priority-direct", '<mujoco><worldbody><body><freejoint/><geom size=".1" priority="1" solref="-100 -10"/></body>'
+                             '<body pos=".15 0 0"><freejoint/><geom size=".1" priority="0" solref="-200 -5"/></body></worldbody></mujoco>'),
+  ("solref-priority-mixed", '<mujoco><worldbody><body><freejoint/><geom size=".1" priority="1" solref="0.03 0.8"/></body>'
+                            '<body pos=".15 0 0"><freejoint/><geom type="capsule" size=".1 .1" priority="0" solref="-200 -5"/></body></worldbody></mujoco>'),
+  ("solref-priority-mixed2", '<mujoco><worldbody><geom type="plane" size="1 1 .1" priority="-1" solref="0.03 0.8"/>'
+                             '<body pos="0 0 .09"><freejoint/><geom size=".1" solref="-200 -5"/></body></worldbody></mujoco>'),
+  # repaired by /repo 49180a6: distance 0.02 inside the gap band [margin, margin + gap) = [0, 0.03)
+  ("in-gap-capsules", '<mujoco><worldbody><body><freejoint/><geom type="capsule" size=".1 .2" gap="0.03"/></body>'
+                      '<body pos=".22 0 0" quat="0.9 0.3 0.2 0.1"><freejoint/><geom type="capsule" size=".1 .2"/></body></worldbody></mujoco>'),
+  ("in-gap-capsules-parallel-x", '<mujoco><worldbody><body quat="0.70710678 0 0.70710678 0"><freejoint/><geom type="capsule" size=".1 .2" gap="0.03" margin="0.01"/></body>'
+                                 '<body pos="0.6 0 0.0" quat="0.8 0.1 0.5 0.2"><freejoint/><geom type="capsule" size=".1 .15"/></body></worldbody></mujoco>'),
+  ("in-gap-boxes", '<mujoco><option><flag nativeccd="disable" multiccd="disable"/></option><worldbody><body><freejoint/><geom type="box" size=".1 .1 .1" gap="0.03"/></body>'
+                   '<body pos=".22 0.03 0.02" quat="0.99 0 0 0.14"><freejoint/><geom type="box" size=".1 .08 .12"/></body></worldbody></mujoco>'),
+]
+
+
+def _regressions(acc):
+  """inputs that triggered the two repaired defects; they go through the same comparison as the random scenes and must pass"""
+  import mujoco
+  import mujoco_warp as mjw
+  for name, xml in REGRESSIONS:
+    mjm = mujoco.MjModel.from_xml_string(xml)
+    mjd = mujoco.MjData(mjm)
+    if name == "in-gap-capsules-parallel-x":
+      # slide the second capsule along x until it is 0.025 away (inside the gap band above the margin 0.01)
+      ft = np.zeros(6)
+      for _ in range(6):
+        mujoco.mj_kinematics(mjm, mjd)
+        mjd.qpos[7] -= mujoco.mj_geomDistance(mjm, mjd, 0, 1, 10.0, ft) - 0.025
+    mujoco.mj_kinematics(mjm, mjd)
+    mujoco.mj_collision(mjm, mjd)
+    m = mjw.put_model(mjm)
+    d = mjw.put_data(mjm, mjd, nworld=1, naconmax=64)
+    mjw.kinematics(m, d)
+    mjw.collision(m, d)
+    acc.evals += 1
+    n0 = len(acc.findings)
+    ref = mj_contacts(mjm, mjd)
+    if not ref:
+      acc.find(f"regression input {name} does not produce a contact in mj_collision any more", "harness", "regression-input", xml=xml)
+    compare(mjm, ref, mjw_contacts(d, 0), acc, {"xml": xml, "qpos": mjd.qpos.tolist()})
+    acc.hit(f"regression:{name}:" + ("pass" if len(acc.findings) == n0 else "FAIL"))
+
+
 def _run(ctx, ncases, rich=True):
   import mujoco
   import mujoco_warp as mjw
   rng = np.random.default_rng(ctx.seed * 1000 + 4)
   acc = Acc()
+  _regressions(acc)
   for c in range(ncases):
     xml, info = gen_scene(rng, rich=rich)
     try:
@@ -485,7 +613,216 @@ def _run(ctx, ncases, rich=True):
   return acc
 
 
-RULE = ("2-5 free bodies with one sphere/capsule/ellipsoid/cylinder/box/mesh (inline convex vertex sets) geom each, packed in a 0.12-0.3 box (25% axis-aligned orientations), optional plane (50%) and "
+# -------------------------------------------------------------------------------------------------
+# model <-> code tie for the array-taking functions (func_corr only handles scalar/vector parameters):
+# the generated Lean definitions are EVALUATED at Float32 by a throw-away Lean script and compared with the real @wp.funcs
+# called from a small kernel on the same tables.
+
+_KSRC = '''
+import warp as wp
+from mujoco_warp._src import collision_core
+from mujoco_warp._src import collision_primitive_core
+from mujoco_warp._src import math
+from mujoco_warp._src.types import vec5
+
+@wp.kernel(module="unique")
+def k_params(geom_condim: wp.array(dtype=int), geom_priority: wp.array(dtype=int), geom_solmix: wp.array2d(dtype=float), geom_solref: wp.array2d(dtype=wp.vec2),
+             geom_solimp: wp.array2d(dtype=vec5), geom_friction: wp.array2d(dtype=wp.vec3), geom_margin: wp.array2d(dtype=float), geom_gap: wp.array2d(dtype=float),
+             geom_adhesion: wp.array2d(dtype=float), pair_dim: wp.array(dtype=int), pair_solref: wp.array2d(dtype=wp.vec2), pair_solreffriction: wp.array2d(dtype=wp.vec2),
+             pair_solimp: wp.array2d(dtype=vec5), pair_margin: wp.array2d(dtype=float), pair_gap: wp.array2d(dtype=float), pair_adhesion: wp.array2d(dtype=float),
+             pair_friction: wp.array2d(dtype=vec5), collision_pair: wp.array(dtype=wp.vec2i), collision_pairid: wp.array(dtype=wp.vec2i), worldid: wp.array(dtype=int),
+             o_geoms: wp.array(dtype=wp.vec2i), o_margin: wp.array(dtype=float), o_gap: wp.array(dtype=float), o_condim: wp.array(dtype=int), o_friction: wp.array(dtype=vec5),
+             o_solref: wp.array(dtype=wp.vec2), o_solreffriction: wp.array(dtype=wp.vec2), o_solimp: wp.array(dtype=vec5), o_adhesion: wp.array(dtype=float)):
+  i = wp.tid()
+  geoms, margin, gap, condim, friction, solref, solreffriction, solimp, adhesion = collision_core.contact_params(
+    geom_condim, geom_priority, geom_solmix, geom_solref, geom_solimp, geom_friction, geom_margin, geom_gap, geom_adhesion, pair_dim, pair_solref, pair_solreffriction, pair_solimp,
+    pair_margin, pair_gap, pair_adhesion, pair_friction, collision_pair, collision_pairid, i, worldid[i])
+  o_geoms[i] = geoms
+  o_margin[i] = margin
+  o_gap[i] = gap
+  o_condim[i] = condim
+  o_friction[i] = friction
+  o_solref[i] = solref
+  o_solreffriction[i] = solreffriction
+  o_solimp[i] = solimp
+  o_adhesion[i] = adhesion
+
+
+@wp.kernel(module="unique")
+def k_prims(p1: wp.array(dtype=wp.vec3), r1: wp.array(dtype=float), p2: wp.array(dtype=wp.vec3), r2: wp.array(dtype=float), nrm: wp.array(dtype=wp.vec3), y: wp.array(dtype=float),
+            o_ss_dist: wp.array(dtype=float), o_ss_pos: wp.array(dtype=wp.vec3), o_ss_n: wp.array(dtype=wp.vec3), o_ps_dist: wp.array(dtype=float), o_ps_pos: wp.array(dtype=wp.vec3),
+            o_div: wp.array(dtype=float)):
+  i = wp.tid()
+  d, pos, n = collision_primitive_core.sphere_sphere(p1[i], r1[i], p2[i], r2[i])
+  o_ss_dist[i] = d
+  o_ss_pos[i] = pos
+  o_ss_n[i] = n
+  d2, pos2 = collision_primitive_core.plane_sphere(nrm[i], p1[i], p2[i], r2[i])
+  o_ps_dist[i] = d2
+  o_ps_pos[i] = pos2
+  o_div[i] = math.safe_div(r1[i], y[i])
+'''
+
+
+def _bits(a):
+  return np.asarray(a, dtype=np.float32).reshape(-1).view(np.uint32).tolist()
+
+
+def _lean_tab(name, arr, width):
+  """Lean definition `name : Int -> Int -> <vec>` backed by a flat Float32 table (rows = worlds)"""
+  flat = _bits(arr)
+  ncol = arr.shape[1]
+  ctor = {1: "(g 0)", 2: "(⟨g 0, g 1⟩ : V2 Float32)", 3: "(⟨g 0, g 1, g 2⟩ : V3 Float32)", 5: "(⟨g 0, g 1, g 2, g 3, g 4⟩ : V5 Float32)"}[width]
+  ty = {1: "Float32", 2: "V2 Float32", 3: "V3 Float32", 5: "V5 Float32"}[width]
+  return (f"def {name}_d : Array UInt32 := #[{', '.join(str(x) for x in flat)}]\n"
+          f"def {name} (w i : Int) : {ty} := let g := fun (k : Nat) => Float32.ofBits ({name}_d[((w.toNat * {ncol} + i.toNat) * {width} + k)]!); {ctor}\n")
+
+
+def params_corr(ctx, ntables, nprim=48):
+  """contact_params (-> contact_margin_gap, contact_material_params): generated Lean at Float32 vs the real @wp.func"""
+  import importlib.util, os, subprocess, sys, tempfile
+  import warp as wp
+  from mujoco_warp._src.types import vec5
+  from harness.corr.func_corr import LEAN, CACHE
+  rng = np.random.default_rng(ctx.seed * 1000 + 404)
+  d = os.path.join(CACHE, "funccorr")
+  os.makedirs(d, exist_ok=True)
+  path = os.path.join(d, "c04_params_kernel2.py")
+  if not os.path.exists(path) or open(path).read() != _KSRC:
+    open(path, "w").write(_KSRC)
+  spec = importlib.util.spec_from_file_location("c04_params_kernel2", path)
+  mod = importlib.util.module_from_spec(spec)
+  sys.modules["c04_params_kernel2"] = mod
+  spec.loader.exec_module(mod)
+  NG, NP = 4, 2
+  evals, disagreements, outs = 0, [], set()
+  pevals, pouts = 0, set()
+  sample = None
+  for t in range(ntables):
+    sh = lambda: int(rng.integers(1, 3))    # batched (2 worlds) or not (1)
+    solmix_pool = np.array([0.0, 1e-16, 0.3, 1.0, 2.5], dtype=np.float32)
+    T = {
+      "geom_solmix": rng.choice(solmix_pool, size=(sh(), NG)).astype(np.float32),
+      "geom_solref": np.where(rng.random((sh(), NG, 1)) < 0.5, rng.uniform(0.005, 0.05, size=(2, NG, 2))[:1].repeat(2, 0)[:1], -rng.uniform(1, 300, size=(1, NG, 2))).astype(np.float32),
+      "geom_solimp": rng.uniform(0.001, 2.0, size=(sh(), NG, 5)).astype(np.float32),
+      "geom_friction": rng.uniform(0, 1.5, size=(sh(), NG, 3)).astype(np.float32) * np.array([1, 1e-5, 1e-2], dtype=np.float32),
+      "geom_margin": rng.choice([0.0, 0.01, 0.04], size=(sh(), NG)).astype(np.float32),
+      "geom_gap": rng.choice([0.0, 0.02], size=(sh(), NG)).astype(np.float32),
+      "geom_adhesion": rng.choice([0.0, 0.0, 1.5], size=(sh(), NG)).astype(np.float32),
+      "pair_solref": rng.uniform(0.005, 1.0, size=(sh(), NP, 2)).astype(np.float32),
+      "pair_solreffriction": rng.uniform(0.0, 1.0, size=(sh(), NP, 2)).astype(np.float32),
+      "pair_solimp": rng.uniform(0.001, 2.0, size=(sh(), NP, 5)).astype(np.float32),
+      "pair_margin": rng.uniform(0, 0.05, size=(sh(), NP)).astype(np.float32),
+      "pair_gap": rng.uniform(0, 0.05, size=(sh(), NP)).astype(np.float32),
+      "pair_adhesion": rng.choice([0.0, 2.0], size=(sh(), NP)).astype(np.float32),
+      "pair_friction": (rng.uniform(0, 1.5, size=(sh(), NP, 5)) * (rng.random((1, NP, 5)) < 0.8)).astype(np.float32),
+    }
+    T["geom_solref"] = np.broadcast_to(T["geom_solref"], (T["geom_solref"].shape[0], NG, 2)).copy()
+    condim = rng.choice([1, 3, 4, 6], size=NG).astype(np.int32)
+    prio = rng.integers(-1, 2, size=NG).astype(np.int32)
+    pdim = rng.choice([1, 3, 4, 6], size=NP).astype(np.int32)
+    cases = [(g1, g2, pid, w) for g1 in range(NG) for g2 in range(NG) for pid in (-2, -1, 0, 1) for w in (0, 1, 2) if rng.random() < 0.35]
+    n = len(cases)
+    cp = np.array([[c[0], c[1]] for c in cases], dtype=np.int32)
+    cpid = np.array([[c[2], -1] for c in cases], dtype=np.int32)
+    wid = np.array([c[3] for c in cases], dtype=np.int32)
+    W = {2: wp.vec2, 3: wp.vec3, 5: vec5}
+    def arr(k):
+      a = T[k]
+      return wp.array(a, dtype=float) if a.ndim == 2 else wp.array(a, dtype=W[a.shape[2]])
+    o = {"geoms": wp.zeros(n, dtype=wp.vec2i), "margin": wp.zeros(n, dtype=float), "gap": wp.zeros(n, dtype=float), "condim": wp.zeros(n, dtype=int), "friction": wp.zeros(n, dtype=vec5),
+         "solref": wp.zeros(n, dtype=wp.vec2), "solreffriction": wp.zeros(n, dtype=wp.vec2), "solimp": wp.zeros(n, dtype=vec5), "adhesion": wp.zeros(n, dtype=float)}
+    wp.launch(mod.k_params, dim=n, inputs=[wp.array(condim, dtype=int), wp.array(prio, dtype=int), arr("geom_solmix"), arr("geom_solref"), arr("geom_solimp"), arr("geom_friction"),
+                                            arr("geom_margin"), arr("geom_gap"), arr("geom_adhesion"), wp.array(pdim, dtype=int), arr("pair_solref"), arr("pair_solreffriction"),
+                                            arr("pair_solimp"), arr("pair_margin"), arr("pair_gap"), arr("pair_adhesion"), arr("pair_friction"), wp.array(cp, dtype=wp.vec2i),
+                                            wp.array(cpid, dtype=wp.vec2i), wp.array(wid, dtype=int)], outputs=list(o.values()))
+    real = np.concatenate([o["geoms"].numpy().reshape(n, -1).astype(np.float64), o["margin"].numpy().reshape(n, 1), o["gap"].numpy().reshape(n, 1), o["condim"].numpy().reshape(n, 1),
+                           o["friction"].numpy().reshape(n, -1), o["solref"].numpy().reshape(n, -1), o["solreffriction"].numpy().reshape(n, -1), o["solimp"].numpy().reshape(n, -1),
+                           o["adhesion"].numpy().reshape(n, 1)], axis=1)
+    # ---- sphere_sphere / plane_sphere / safe_div on the first table's Lean run (one Lean process for everything)
+    NPR = nprim if t == 0 else 0
+    if NPR:
+      P1 = rng.normal(size=(NPR, 3)).astype(np.float32) * 0.3
+      P2 = rng.normal(size=(NPR, 3)).astype(np.float32) * 0.3
+      P2[:3] = P1[:3]                                   # coincident centres: the fixed-normal branch
+      R1 = rng.uniform(0.01, 0.3, size=NPR).astype(np.float32)
+      R2 = rng.uniform(0.01, 0.3, size=NPR).astype(np.float32)
+      NR = rng.normal(size=(NPR, 3))
+      NR = (NR / np.linalg.norm(NR, axis=1, keepdims=True)).astype(np.float32)
+      Y = rng.normal(size=NPR).astype(np.float32)
+      Y[:4] = 0.0                                       # safe_div's guarded branch
+      po = {"ssd": wp.zeros(NPR, dtype=float), "ssp": wp.zeros(NPR, dtype=wp.vec3), "ssn": wp.zeros(NPR, dtype=wp.vec3), "psd": wp.zeros(NPR, dtype=float), "psp": wp.zeros(NPR, dtype=wp.vec3),
+            "div": wp.zeros(NPR, dtype=float)}
+      wp.launch(mod.k_prims, dim=NPR, inputs=[wp.array(P1, dtype=wp.vec3), wp.array(R1, dtype=float), wp.array(P2, dtype=wp.vec3), wp.array(R2, dtype=float), wp.array(NR, dtype=wp.vec3),
+                                              wp.array(Y, dtype=float)], outputs=list(po.values()))
+      preal = np.concatenate([po["ssd"].numpy().reshape(NPR, 1), po["ssp"].numpy().reshape(NPR, 3), po["ssn"].numpy().reshape(NPR, 3), po["psd"].numpy().reshape(NPR, 1),
+                              po["psp"].numpy().reshape(NPR, 3), po["div"].numpy().reshape(NPR, 1)], axis=1).astype(np.float64)
+      pin = np.concatenate([P1, R1[:, None], P2, R2[:, None], NR, Y[:, None]], axis=1)
+    # ---- the generated definitions, evaluated by Lean at Float32
+    src = ["import MjwVerif.Gen.Collision_core", "import MjwVerif.Gen.Collision_primitive_core", "open Mjw", "set_option maxRecDepth 100000"]
+    if NPR:
+      src.append(f"def prim_d : Array UInt32 := #[{', '.join(str(x) for x in _bits(pin))}]")
+    for k, a in T.items():
+      src.append(_lean_tab(k, a if a.ndim == 3 else a[:, :, None], 1 if a.ndim == 2 else a.shape[2]))
+    src.append(f"def condim_d : Array Int := #[{', '.join(str(int(x)) for x in condim)}]\ndef prio_d : Array Int := #[{', '.join(str(int(x)) for x in prio)}]\n"
+               f"def pdim_d : Array Int := #[{', '.join(str(int(x)) for x in pdim)}]")
+    src.append(f"def cases : Array (Int × Int × Int × Int) := #[{', '.join(f'({a}, {b}, {c}, {w})' for a, b, c, w in cases)}]")
+    shp = lambda k: T[k].shape[0]
+    src.append(f"""def b (x : Float32) : String := toString x.toBits
+def main : IO Unit := do
+  for (g1, g2, pid, w) in cases do
+    let r := Mjw.Gen.Collision_core.contact_params (K := Float32) (fun i => condim_d[i.toNat]!) (fun i => prio_d[i.toNat]!) geom_solmix geom_solref geom_solimp geom_friction
+      geom_margin geom_gap geom_adhesion (fun i => pdim_d[i.toNat]!) pair_solref pair_solreffriction pair_solimp pair_margin pair_gap pair_adhesion pair_friction
+      (fun _ => (⟨g1, g2⟩ : I2)) (fun _ => (⟨pid, -1⟩ : I2)) 0 w
+      {shp("pair_margin")} {shp("pair_gap")} {shp("geom_margin")} {shp("geom_gap")} {shp("pair_friction")} {shp("pair_solref")} {shp("pair_solreffriction")} {shp("pair_solimp")}
+      {shp("pair_adhesion")} {shp("geom_solmix")} {shp("geom_friction")} {shp("geom_solref")} {shp("geom_solimp")} {shp("geom_adhesion")}
+    let (gs, margin, gap, cd, fr, sr, srf, si, adh) := r
+    IO.println s!"C {{gs.c0}} {{gs.c1}} {{b margin}} {{b gap}} {{cd}} {{b fr.c0}} {{b fr.c1}} {{b fr.c2}} {{b fr.c3}} {{b fr.c4}} {{b sr.c0}} {{b sr.c1}} {{b srf.c0}} {{b srf.c1}} {{b si.c0}} {{b si.c1}} {{b si.c2}} {{b si.c3}} {{b si.c4}} {{b adh}}"
+""")
+    if NPR:
+      src.append(f"""def mainP : IO Unit := do
+  for i in [0:{NPR}] do
+    let g := fun (k : Nat) => Float32.ofBits (prim_d[i * 12 + k]!)
+    let p1 : V3 Float32 := ⟨g 0, g 1, g 2⟩
+    let p2 : V3 Float32 := ⟨g 4, g 5, g 6⟩
+    let (d, pos, n) := Mjw.Gen.Collision_primitive_core.sphere_sphere (K := Float32) p1 (g 3) p2 (g 7)
+    let (d2, pos2) := Mjw.Gen.Collision_primitive_core.plane_sphere (K := Float32) (⟨g 8, g 9, g 10⟩ : V3 Float32) p1 p2 (g 7)
+    let q := Mjw.Gen.Math.safe_div_F_F (K := Float32) (g 3) (g 11)
+    IO.println s!"P {{b d}} {{b pos.c0}} {{b pos.c1}} {{b pos.c2}} {{b n.c0}} {{b n.c1}} {{b n.c2}} {{b d2}} {{b pos2.c0}} {{b pos2.c1}} {{b pos2.c2}} {{b q}}"
+""")
+      src[-2] = src[-2].replace("def main : IO Unit := do", "def mainC : IO Unit := do")
+      src.append("def main : IO Unit := do\n  mainC\n  mainP\n")
+    with tempfile.TemporaryDirectory(prefix="c04corr") as td:
+      fn = os.path.join(td, "Eval.lean")
+      open(fn, "w").write("\n".join(src))
+      p = subprocess.run(["lake", "env", "lean", "--run", fn], cwd=LEAN, capture_output=True, text=True)
+    if p.returncode != 0:
+      raise RuntimeError("lean evaluation of contact_params failed: " + (p.stderr + p.stdout)[-2000:])
+    plines = [l[2:] for l in p.stdout.split("\n") if l.startswith("P ")]
+    lines = [l[2:] for l in p.stdout.split("\n") if l.startswith("C ")]
+    assert len(lines) == n and len(plines) == NPR, (len(lines), n, len(plines), NPR)
+    for pi, line in enumerate(plines):
+      model = np.array([int(tk) for tk in line.split()], dtype=np.uint32).view(np.float32).astype(np.float64)
+      pevals += 1
+      pouts.add(tuple(np.round(model, 6)))
+      if not np.allclose(model, preal[pi], rtol=2e-5, atol=1e-6):
+        if len(disagreements) < 10:
+          disagreements.append({"function": "collision_primitive_core.sphere_sphere/plane_sphere, math.safe_div", "inputs": pin[pi].tolist(), "model": model.tolist(), "real": preal[pi].tolist()})
+    isint = [True, True, False, False, True] + [False] * 15
+    for ci, (line, rrow) in enumerate(zip(lines, real)):
+      toks = line.split()
+      model = np.array([float(int(tk)) if ii else float(np.array([int(tk)], dtype=np.uint32).view(np.float32)[0]) for tk, ii in zip(toks, isint)])
+      evals += 1
+      outs.add(tuple(np.round(model, 6)))
+      if not np.allclose(model, rrow, rtol=2e-6, atol=1e-9):
+        if len(disagreements) < 10:
+          disagreements.append({"function": "collision_core.contact_params", "case": list(cases[ci]), "model": model.tolist(), "real": rrow.tolist()})
+      if sample is None and cases[ci][2] < 0:
+        sample = {"function": "collision_core.contact_params", "geoms": list(cases[ci][:2]), "priority": prio[list(cases[ci][:2])].tolist(), "solref": np.round(rrow[10:12], 5).tolist()}
+  return {"evaluations": evals, "distinct_outputs": len(outs), "disagreements": disagreements, "sample": sample, "prim_evaluations": pevals, "prim_distinct": len(pouts)}
+
+
+RULE = ("6 regression inputs of the repaired defects (priority + direct solref; capsule/box pairs inside the gap band) first; then 2-5 free bodies with one sphere/capsule/ellipsoid/cylinder/box/mesh (inline convex vertex sets) geom each, packed in a 0.12-0.3 box (25% axis-aligned orientations), optional plane (50%) and "
         "heightfield (15%); random margin/gap/priority/solmix (incl. 0 and 1e-16)/condim/friction/solref (standard and direct)/solimp per geom; 35% one explicit <pair> (no margin/gap attribute) "
         "with own condim/friction/solref/solimp; 25% one <exclude>; cone pyramidal/elliptic; multiccd on/off; 1-2 worlds. mjw.kinematics + mjw.collision vs mujoco.mj_kinematics + mj_collision: per "
         "unordered geom pair the contact lists are compared (count, dim, friction, solref, solreffriction, solimp, includemargin; dist/pos/normal by nearest-position matching); distinct = (scene, "
@@ -494,9 +831,23 @@ RULE = ("2-5 free bodies with one sphere/capsule/ellipsoid/cylinder/box/mesh (in
 
 def correspondence(ctx):
   from harness.corr import func_corr
-  fc = func_corr.run(["collision_primitive_core.plane_sphere", "collision_primitive_core.sphere_sphere", "collision_primitive_core.sphere_capsule", "collision_primitive_core.plane_ellipsoid",
-                      "collision_primitive_core.sphere_cylinder", "collision_primitive_core.sphere_box", "math.safe_div"], ncases=192 if ctx.thorough else 64, seed=ctx.seed)
-  acc = _run(ctx, 400 if ctx.thorough else 60)
+  pc = params_corr(ctx, 6 if ctx.thorough else 1, nprim=192 if ctx.thorough else 48)
+  how = "generated Lean definition evaluated at Float32 by a Lean script vs the real @wp.func called from a kernel"
+  fc = {"evaluations": pc["evaluations"] + 3 * pc["prim_evaluations"], "distinct_outputs": pc["distinct_outputs"] + pc["prim_distinct"], "disagreements": pc["disagreements"],
+        "sample": pc["sample"],
+        "functions": {"collision_core.contact_params": {"evaluations": pc["evaluations"], "distinct_outputs": pc["distinct_outputs"],
+                                                        "how": how + " (tables of 4 geoms / 2 pairs, batched and unbatched fields, worlds 0-2, pair ids -2..1); covers "
+                                                               "contact_margin_gap and contact_material_params"}}}
+  for fn in ("collision_primitive_core.sphere_sphere", "collision_primitive_core.plane_sphere", "math.safe_div"):
+    fc["functions"][fn] = {"evaluations": pc["prim_evaluations"], "how": how + " (random inputs incl. coincident centres / zero divisor)"}
+  if ctx.thorough:
+    f2 = func_corr.run(["collision_primitive_core.plane_sphere", "collision_primitive_core.sphere_sphere", "math.safe_div_F_F"], ncases=192, seed=ctx.seed)
+    fc["evaluations"] += f2["evaluations"]
+    fc["distinct_outputs"] += f2["distinct_outputs"]
+    fc["disagreements"] = fc["disagreements"] + f2["disagreements"]
+    for k, v in f2["functions"].items():
+      fc["functions"][k + " (func_corr)"] = v
+  acc = _run(ctx, 400 if ctx.thorough else 24)
   return result(acc, RULE, fc=fc)
 
 
